@@ -121,7 +121,7 @@ def shrink_cases(draw, tier):
 
 
 def _kf_f8(case, subcheck, detail):
-    return bool(case.get('reducer')) and case['reducer']['kind'] in ('sum', 'add2') and bool(case.get('penalty')) \
+    return bool(case.get('reducer')) and case['reducer']['kind'] in ('sum', 'add2', 'sumsq', 'maxabs') and bool(case.get('penalty')) \
         and subcheck == 'C03.result' and isinstance(detail, dict) and 'objective' in detail
 
 
